@@ -1,5 +1,7 @@
 import MpgsModel.Props.C04
 import MpgsModel.Lemmas.Assoc
+import MpgsModel.Lemmas.Once7
+import MpgsModel.Model.ToyAead
 /-!
 # C07 — Send callbacks are truthful and fire exactly once
 
@@ -364,5 +366,53 @@ theorem C07_fragment_callback (c : Conn) (fid idx : Nat) (obj : FragSender) (v :
 example : KeysNodup ([(3, 10), (4, 11)] : List (Nat × Int)) := by unfold KeysNodup; decide
 example : (resolve { isServer := true, pendingAcks := [(3, 10)], pendingCbs := [(3, [.user 9])] } 3 true).2
     = [.resolved 3 true, .userCb 9 true] := by decide
+
+/-! ### history level: at most once
+
+`pot u c` (Lemmas/Once7.lean) counts where the connection holds the user callback `u`: as the
+callback of a queued message, in a parked callback list, inside a `RetrySender` that has not
+reported, as the user callback of a `FragmentSender` that has not reported.  Every operation
+satisfies `pot' + (invocations of u in this step) ≤ pot + (holders this operation introduces)`,
+so along any history the number of invocations is bounded by the number of sends given `u`. -/
+
+/-- **At most once per send, over whole histories.**  For every history of sends, builds,
+received datagrams (any bytes), time-out sweeps, disconnects and inbox drains in which `u` is never
+given to a BEST_EFFORT send, from any state in which `u` is not the direct callback of a message
+that is re-sent on the keep-alive interval: the number of times the user callback `u` is invoked
+is at most the number of holders the state had plus the number of operations that were given `u`. -/
+theorem C07_at_most_once (E : Env) (hR : E.R.KeepsPot) (u : Nat) (c : Conn) (ops : List Op)
+    (hd : Direct0 u c) (hbe : NoBestEffort u ops) :
+    firedO u (run E c ops).2 ≤ pot u c + intros7 u ops := by
+  have := pot_run u E hR c ops hd hbe
+  omega
+
+/-- a callback id that the connection does not hold yet and that is given to exactly one
+unretried or guaranteed send (single datagram or fragmented) is invoked at most once, whatever
+the network and the peer do -/
+theorem C07_fresh_callback_at_most_once (E : Env) (hR : E.R.KeepsPot) (u : Nat) (c : Conn) (ops : List Op)
+    (hd : Direct0 u c) (h0 : pot u c = 0) (hbe : NoBestEffort u ops) (h1 : intros7 u ops = 1) :
+    firedO u (run E c ops).2 ≤ 1 := by
+  have := C07_at_most_once E hR u c ops hd hbe
+  omega
+
+/-- the hypothesis on the handshake handlers holds for the base class and both subclasses -/
+theorem C07_roles_hold_no_user_callbacks (H : Hs) (tok : Nat) (tt : Option Nat) :
+    baseRole.KeepsPot ∧ (clientRole H).KeepsPot ∧ (serverRole H tok tt).KeepsPot :=
+  ⟨baseRole_keepsPot, clientRole_keepsPot H, serverRole_keepsPot H tok tt⟩
+
+/-- non-vacuity: a fresh connected endpoint, one unretried send with callback 7, the datagram
+times out: the hypotheses hold and the callback is invoked exactly once (with False) -/
+example :
+    let E : Env := ⟨⟨1500⟩, Mpgs.Toy.crypto, baseRole⟩
+    let c : Conn := { isServer := false, status := .connected, key := some [1] }
+    let ops : List Op := [.send [1, 2] 0 (some 7), .build 100, .tmo 5000, .tmo 9000]
+    Direct0 7 c ∧ pot 7 c = 0 ∧ NoBestEffort 7 ops ∧ intros7 7 ops = 1 ∧ firedO 7 (run E c ops).2 = 1 := by
+  intro E c ops
+  have hd : Direct0 7 c := by
+    constructor
+    · intro x h; simp [c] at h
+    · intro m h; simp [c] at h
+  refine ⟨hd, rfl, ?_, rfl, by decide +kernel⟩
+  simp [ops, NoBestEffort]
 
 end Mpgs.Conn
